@@ -3,9 +3,11 @@
 
   Part 1 (this file, primitive layer): `eqVal` on scalars, the identity short-cut, `refEq`, `!=`/`!==` as negations,
   purity, the shape of the mismatch diagnostic.
-  Part 2 (`Lemmas/C10Tree.lean`, re-exported at the end of this file): the inductive unfolding of acyclic values and
-  the laws of `==` on unfoldings (reflexive on function-free values, same boolean in both orders, transitive,
-  independent of addresses), tied to `eqVal` on the heap.
+  Part 2 (built on `Lemmas/C10Tree.lean`): the inductive unfolding `Tree` of acyclic values (`Unf σ v s`), the
+  comparison `eqT` on unfoldings, the tie `eq_is_tree_eq` between `eqVal` on the heap and `eqT`, and the laws:
+  reflexive on function-free values and deep copies, `true` exactly on equal unfoldings, the same boolean in both
+  operand orders, transitive, independent of addresses / aliasing / construction, total (boolean or a mismatch
+  naming two kinds; never a crash).
 -/
 import SeedProofs.Lemmas.C10Tree
 namespace Seed.C10
@@ -154,6 +156,8 @@ theorem eq_mismatch_msg (fuel : Nat) (σ : State) (loc : Loc) (a b : Val) (p lt 
     pathSuffix [] = [] ∧ pathSuffix c!"[1]" = c!" (at [1])" :=
   ⟨((ne_is_not fuel σ loc a b).2 p lt rt h).1, rfl, rfl, rfl⟩
 
+example : eqVal 1 State.init (.int 1) (.str []) = .mismatch [] c!"int" c!"string" := by rfl
+
 /-- an instance with shared sub-structure, through the whole pipeline: `[a] == a` for `a := [[]]` is the diagnostic
     naming `list` and… nothing to mismatch — it is `false` by length; `[a, 1] == [a, "x"]` names the path -/
 example :
@@ -177,5 +181,141 @@ example :
     (run 300 c!"t.sd" c!"print({\"a\": 1, \"b\": 2} == {\"b\": \"s\", \"c\": 1})\nprint({\"b\": \"s\", \"c\": 1} == {\"a\": 1, \"b\": 2})\n").stderr =
       c!"t.sd:2:26: can't apply '==' to 'string' and 'int' (at .'b')\n" := by
   decide +kernel
+
+/-! ## Part 2: `==` on acyclic values is the structural comparison of their unfoldings
+
+`Tree` is the inductive unfolding of a value, `Unf σ v s` says that `s` is the unfolding of `v` in the heap of `σ`
+(it exists exactly when no container is reachable from itself), `eqT` is the comparison algorithm on trees
+(`Lemmas/C10Tree.lean`).  `s.FnFree`: no function occurs in `s`; `s.KO`: the keys of every object in `s` are distinct
+(the invariant of the `BTreeMap` behind every object).  Fuel only ever turns an answer into a time-out. -/
+
+/-- **C10.** On acyclic data `eqVal` answers what the structural comparison of the unfoldings answers: the identity
+    and length short-cuts, the addresses, sharing and the way the operands were built play no role. -/
+theorem eq_is_tree_eq {σ : State} {a b : Val} {s t : Tree} (n : Nat) (ha : Unf σ a s) (hb : Unf σ b t)
+    (hf : s.FnFree) (hk : s.KO) : eqVal n σ a b = .timeout ∨ eqVal n σ a b = eqT s t :=
+  (eq_link σ n).1 a b s t ha hb hf hk
+
+/-- a concrete heap meeting the hypotheses: cell 0 is `[1]`, cells 1 and 2 are two lists `[c, c]` sharing cell 0 -/
+def demoState : State :=
+  ⟨#[.list [SVal.plain (.int 1)], .list [SVal.plain (.list 0), SVal.plain (.list 0)],
+     .list [SVal.plain (.list 0), SVal.plain (.list 0)]], []⟩
+def demoInner : Tree := .list (.cons (.int 1) .nil)
+def demoTree : Tree := .list (.cons demoInner (.cons demoInner .nil))
+
+theorem demo_unf : Unf demoState (.list 1) demoTree ∧ Unf demoState (.list 2) demoTree ∧ demoTree.FnFree ∧ demoTree.KO := by
+  have h0 : Unf demoState (.list 0) demoInner := .list (items := [SVal.plain (.int 1)]) rfl (.cons (.int 1) .nil)
+  refine ⟨.list (items := [SVal.plain (.list 0), SVal.plain (.list 0)]) rfl (.cons h0 (.cons h0 .nil)),
+    .list (items := [SVal.plain (.list 0), SVal.plain (.list 0)]) rfl (.cons h0 (.cons h0 .nil)), ?_, ?_⟩
+  · simp [demoTree, demoInner, Tree.FnFree, Trees.FnFree]
+  · simp [demoTree, demoInner, Tree.KO, Trees.KO]
+
+/-- **C10.** true on itself and on every deep copy (any value with the same unfolding), function-free -/
+theorem eq_refl {σ : State} {a b : Val} {s : Tree} (n : Nat) (ha : Unf σ a s) (hb : Unf σ b s)
+    (hf : s.FnFree) (hk : s.KO) : eqVal n σ a b = .timeout ∨ eqVal n σ a b = .ok true := by
+  rcases eq_is_tree_eq n ha hb hf hk with h | h
+  · exact Or.inl h
+  · right; rw [h, eqT_refl s hf hk]
+
+example : eqVal 5 demoState (.list 1) (.list 2) = .timeout ∨ eqVal 5 demoState (.list 1) (.list 2) = .ok true :=
+  eq_refl 5 demo_unf.1 demo_unf.2.1 demo_unf.2.2.1 demo_unf.2.2.2
+
+/-- with enough fuel the answer is there (the hypotheses `eqVal … = .ok x` of the laws below are satisfiable), and
+    with too little it is a time-out -/
+example : eqVal 5 demoState (.list 1) (.list 2) = .ok true ∧ eqVal 5 demoState (.list 2) (.list 1) = .ok true ∧
+    eqVal 2 demoState (.list 1) (.list 2) = .timeout := ⟨by rfl, by rfl, by rfl⟩
+
+/-- **C10.** the answer depends only on the two unfoldings — not on the heap, the addresses, aliasing or history -/
+theorem eq_alias_independent {σ σ' : State} {a b a' b' : Val} {s t : Tree} (n m : Nat)
+    (ha : Unf σ a s) (hb : Unf σ b t) (ha' : Unf σ' a' s) (hb' : Unf σ' b' t) (hf : s.FnFree) (hk : s.KO)
+    (h1 : eqVal n σ a b ≠ .timeout) (h2 : eqVal m σ' a' b' ≠ .timeout) : eqVal n σ a b = eqVal m σ' a' b' := by
+  rcases eq_is_tree_eq n ha hb hf hk with h | h
+  · exact absurd h h1
+  · rcases eq_is_tree_eq m ha' hb' hf hk with h' | h'
+    · exact absurd h' h2
+    · rw [h, h']
+
+/-- **C10.** never two different booleans for the two operand orders (an error one way and `false` the other way is
+    possible and allowed) -/
+theorem eq_symm_bool {σ : State} {a b : Val} {s t : Tree} {x y : Bool} (n m : Nat) (ha : Unf σ a s) (hb : Unf σ b t)
+    (hfs : s.FnFree) (hft : t.FnFree) (hks : s.KO) (hkt : t.KO)
+    (h1 : eqVal n σ a b = .ok x) (h2 : eqVal m σ b a = .ok y) : x = y := by
+  have e1 : eqT s t = .ok x := by
+    rcases eq_is_tree_eq n ha hb hfs hks with h | h
+    · rw [h1] at h; cases h
+    · rw [← h, h1]
+  have e2 : eqT t s = .ok y := by
+    rcases eq_is_tree_eq m hb ha hft hkt with h | h
+    · rw [h2] at h; cases h
+    · rw [← h, h2]
+  exact eqT_sym_bool s t x y hks hkt e1 e2
+
+/-- **C10.** transitive -/
+theorem eq_trans {σ : State} {a b c : Val} {s t u : Tree} (n m k : Nat) (ha : Unf σ a s) (hb : Unf σ b t) (hc : Unf σ c u)
+    (hfs : s.FnFree) (hft : t.FnFree) (hks : s.KO) (hkt : t.KO)
+    (h1 : eqVal n σ a b = .ok true) (h2 : eqVal m σ b c = .ok true) :
+    eqVal k σ a c = .timeout ∨ eqVal k σ a c = .ok true := by
+  have e1 : eqT s t = .ok true := by
+    rcases eq_is_tree_eq n ha hb hfs hks with h | h
+    · rw [h1] at h; cases h
+    · rw [← h, h1]
+  have e2 : eqT t u = .ok true := by
+    rcases eq_is_tree_eq m hb hc hft hkt with h | h
+    · rw [h2] at h; cases h
+    · rw [← h, h2]
+  rcases eq_is_tree_eq k ha hc hfs hks with h | h
+  · exact Or.inl h
+  · right; rw [h]; exact eqT_trans s t u e1 e2
+
+/-- **C10.** comparing acyclic data is a boolean or the mismatch naming two different kinds (or two functions) with
+    a path — never the internal failure `bad` (so `==` cannot crash), whatever is shared between the operands -/
+theorem eq_mismatch_is_error {σ : State} {a b : Val} {s t : Tree} (n : Nat) (ha : Unf σ a s) (hb : Unf σ b t)
+    (hf : s.FnFree) (hk : s.KO) :
+    eqVal n σ a b = .timeout ∨ (∃ v, eqVal n σ a b = .ok v) ∨
+    (∃ p k1 k2, eqVal n σ a b = .mismatch p (Gen.typeNameDiag k1) (Gen.typeNameDiag k2) ∧
+      (k1 ≠ k2 ∨ k1 = .Func ∨ k1 = .BuiltinFunc)) := by
+  rcases eq_is_tree_eq n ha hb hf hk with h | h
+  · exact Or.inl h
+  · right; rw [h]; exact eqT_good s t
+
+theorem eq_no_crash {σ : State} {a b : Val} {s t : Tree} (n : Nat) (loc : Loc) (ha : Unf σ a s) (hb : Unf σ b t)
+    (hf : s.FnFree) (hk : s.KO) (w : List Char) (σ' : State) : applyBinOp n σ .Eq loc a b ≠ .crash w σ' := by
+  intro hc
+  simp only [applyBinOp] at hc
+  rcases eq_mismatch_is_error n ha hb hf hk with h | ⟨v, h⟩ | ⟨p, k1, k2, h, _⟩ <;> rw [h] at hc <;> cases hc
+
+/-- the laws on trees themselves (no heap): reflexive on function-free trees, same boolean both ways, transitive,
+    total -/
+theorem tree_laws :
+    (∀ s : Tree, s.FnFree → s.KO → eqT s s = .ok true) ∧
+    (∀ s t x y, s.KO → t.KO → eqT s t = .ok x → eqT t s = .ok y → x = y) ∧
+    (∀ s t u, eqT s t = .ok true → eqT t u = .ok true → eqT s u = .ok true) ∧
+    (∀ s t, Good (eqT s t)) :=
+  ⟨eqT_refl, fun s => eqT_sym_bool s, fun s => eqT_trans s, eqT_good⟩
+
+/-- the two orders really can differ as error versus `false` (so `eq_symm_bool` is the strongest symmetric law):
+    `{b:"s",c:1} == {a:1,b:2}` is a mismatch at `.'b'`, the other order is `false` -/
+example :
+    eqT (.obj (.cons c!"b" (.str [115]) (.cons c!"c" (.int 1) .nil))) (.obj (.cons c!"a" (.int 1) (.cons c!"b" (.int 2) .nil)))
+      = .mismatch c!".'b'" c!"string" c!"int" ∧
+    eqT (.obj (.cons c!"a" (.int 1) (.cons c!"b" (.int 2) .nil))) (.obj (.cons c!"b" (.str [115]) (.cons c!"c" (.int 1) .nil)))
+      = .ok false := by
+  constructor <;> simp [eqT, eqPs, Props.get, Props.toList, getP, Props.length, EqRes.prefixPath, Tree.kind, Gen.typeNameDiag]
+
+/-- **C10.** `true` exactly on equal unfoldings.  `Canon`: the keys of every object are in increasing order (how
+    `BTreeMap` stores them; `objInsert` of the model keeps it), so an unfolding is a canonical form: the value's
+    shape and contents and nothing else. -/
+theorem eq_true_iff {s t : Tree} (hf : s.FnFree) (hs : s.Canon) (ht : t.Canon) : eqT s t = .ok true ↔ s = t :=
+  ⟨eqT_true_eq s t hs ht, fun h => h ▸ eqT_refl s hf (Tree.Canon.KO s hs)⟩
+
+example : demoTree.FnFree ∧ demoTree.Canon := by
+  constructor <;> simp [demoTree, demoInner, Tree.FnFree, Trees.FnFree, Tree.Canon, Trees.Canon]
+
+/-- on the heap: an answer `true` means the two values have the same unfolding (never `true` on different shapes or
+    contents) -/
+theorem eq_true_same_unfolding {σ : State} {a b : Val} {s t : Tree} (n : Nat) (ha : Unf σ a s) (hb : Unf σ b t)
+    (hf : s.FnFree) (hs : s.Canon) (ht : t.Canon) (h : eqVal n σ a b = .ok true) : s = t := by
+  rcases eq_is_tree_eq n ha hb hf (Tree.Canon.KO s hs) with h' | h'
+  · rw [h] at h'; cases h'
+  · exact (eq_true_iff hf hs ht).mp (by rw [← h', h])
 
 end Seed.C10
